@@ -23,6 +23,9 @@ var factTargets = []factTarget{
 	{"voucher.go", "Voucher", "VerifyCertChainHash"}, {"voucher.go", "Voucher", "VerifyManufacturerKey"},
 	{"http/handler.go", "Handler", "ServeHTTP"}, {"http/handler.go", "Handler", "handleRequest"}, {"http/handler.go", "Handler", "writeResponse"},
 	{"http/handler.go", "Handler", "handleError"},
+	{"to2.go", "", "TO2"}, {"to2.go", "", "exchangeServiceInfo"}, {"voucher.go", "", "ExtendVoucher"},
+	{"sqlite/sqlite.go", "DB", "ReplaceVoucher"}, {"sqlite/sqlite.go", "DB", "NewToken"}, {"sqlite/sqlite.go", "DB", "loadOrStoreSecret"},
+	{"cose/mac.go", "Mac0", "Digest"},
 }
 
 // bookkeeping calls that say nothing about the decision logic
@@ -50,7 +53,7 @@ func genFacts() {
 	out := newFile("Facts.lean", "Fdo.Gen.Facts")
 	out.p("/-- (function, names of the functions and methods it calls, in source order) -/")
 	parsed := map[string]*ast.File{}
-	var rows []string
+	var rows, goRows []string
 	for _, t := range factTargets {
 		f, ok := parsed[t.file]
 		if !ok {
@@ -73,7 +76,29 @@ func genFacts() {
 				return true
 			})
 		}
+		// calls made inside `go` statements (directly, or anywhere inside a `go func() { … }()` literal)
+		var gos []string
+		if fd != nil && fd.Body != nil {
+			ast.Inspect(fd.Body, func(n ast.Node) bool {
+				g, ok := n.(*ast.GoStmt)
+				if !ok {
+					return true
+				}
+				ast.Inspect(g.Call, func(m ast.Node) bool {
+					if c, ok := m.(*ast.CallExpr); ok {
+						if s := callName(c.Fun); s != "" && !factNoise[s] {
+							gos = append(gos, "\""+s+"\"")
+						}
+					}
+					return true
+				})
+				return false
+			})
+		}
 		rows = append(rows, "  (\""+name+"\", ["+strings.Join(calls, ", ")+"])")
+		goRows = append(goRows, "  (\""+name+"\", ["+strings.Join(gos, ", ")+"])")
 	}
 	out.p("def calls : List (String × List String) := [\n%s]", strings.Join(rows, ",\n"))
+	out.p("/-- (function, names of the functions and methods called from inside its `go` statements) -/")
+	out.p("def goCalls : List (String × List String) := [\n%s]", strings.Join(goRows, ",\n"))
 }
